@@ -74,6 +74,8 @@ TOKENS = [
     ":a", "a:", ":a:", "::", "#:a", "#:", ":", "#:1", "λ:", "+a:", ":λ", "#:λ", "a:b", "...:", ".a:", "<=:",
     # nil / t
     "nil", "nil:", "nilx", "NIL", "t", "tt", "T", "#nil", "#t", "#f", "#true", ":nil", "#:t", "#tx", "#f9", "#nilx", "#t#f", "#false", "#t'a",
+    # names ending in a dot (a lone dot is the pair marker), over-long digit runs, wrong closing brackets
+    "\u03bb.", "\u00e9..", "-..", "+..", "#%.", "a.", "18446744073709551616", "99999999999999999999999", "#(a]", "#(a b]", "'", ",@",
     # characters
     "?a", "?\\(", "?", "?ab", "?\\x41", "?λ", "a?b", "#\\a", "#\\space", "#\\x41", "#\\(", "#\\λ", "#\\nul", "#\\spac",
     # racket
@@ -120,7 +122,7 @@ DATUMS += [("e", "?" + chr(c)) for c in range(33, 127) if chr(c) not in "()[];\\
 DATUMS += [("e", "?\\" + chr(c)) for c in range(33, 127) if chr(c) in "()[];\"'`#.,|^!$%&*+-/:<=>?@_~{}"]
 
 # contexts: @ is replaced by the token
-CONTEXTS = ["@", "(@ x)", "(x . @)", "#(x @)", "(x @)", "[x @]", "#(@)"]
+CONTEXTS = ["@", "(@ x)", "(x . @)", "#(x @)", "(x @)", "[x @]", "#(@)", "(- @)", "(\u03bb @)"]
 
 
 def big_tokens():
